@@ -23,7 +23,7 @@ TITLE = 'attribute rendering'
 LEVEL = 'exploration'
 SHARDS = {'quick': 16, 'thorough': 16}
 FLOOR = {'quick': 1500, 'thorough': 15000}
-REQUIRED_MONITORS = {'start-tags-compared': 6000, 'i18n-attributes-twins-compared': 500}
+REQUIRED_MONITORS = {'start-tags-compared': 6000, 'i18n-attributes-twins-compared': 500, 'translation-block-twins-compared': 500}
 RULE = ('a case = (static attributes with quoting kinds, statement entries, value vector, boolean configuration); exhaustive '
         'layer: <=2 statics x <=2 entries over 3 names x all quoting kinds x all 9 value classes; random layer: up to 5 '
         'statics and 4 entries incl. up to 2 dictionary entries; non-trivial iff a name is targeted by >=1 dynamic source or is '
@@ -244,6 +244,18 @@ def one_case(ctx, statics, entries, cfg, Bs, sample=False):
         except Exception as e:
             ctx.violation('i18n-attributes-twin-does-not-compile', 'template %r with i18n:attributes=%r: %s: %s' % (
                 src, named, type(e).__name__, str(e).split('\n')[0]), {'kind': 'compile', 'src': src, 'cfg': cfg})
+    # metamorphic twin 2: the element stands inside a translation block (under the library's own translation function,
+    # which hands the block's text back): its start tag is the same - whichever stream the engine writes it to
+    twin_block = None
+    if hash(src) % 4 == 1:
+        pre = '<?xml version="1.0"?>' if src.startswith('<?xml') else ''
+        body = src[len(pre):]
+        wrap = ['<div i18n:translate="">%s</div>', '<div i18n:translate="">see <b i18n:name="n">%s</b></div>'][hash(src) % 8 == 1]
+        try:
+            twin_block = (PageTemplate(pre + wrap % body, **kw), wrap.replace(' i18n:translate=""', '').replace(' i18n:name="n"', ''), pre)
+        except Exception as e:
+            ctx.violation('translation-block-twin-does-not-compile', 'template %r inside %r: %s: %s' % (
+                src, wrap, type(e).__name__, str(e).split('\n')[0]), {'kind': 'compile', 'src': src, 'cfg': cfg})
     for B in Bs:
         exp = model(statics, entries, cfg, B)
         try:
@@ -263,6 +275,19 @@ def one_case(ctx, statics, entries, cfg, Bs, sample=False):
                           'template %r (booleans: %s) bindings %r\n  rendered %r\n  model    %r' % (src, cfg, B, o, exp),
                           {'kind': 'attrs', 'src': src, 'cfg': cfg, 'B': repr(B)})
             return
+        if twin_block is not None:
+            tb, wrapper, pre = twin_block
+            try:
+                o3 = tb(**real_bindings(B))
+            except Exception as e:
+                o3 = 'RAISED %s: %s' % (type(e).__name__, str(e).split('\n')[0][:100])
+            ctx.mon('translation-block-twins-compared')
+            want3 = pre + wrapper % o[len(pre):]
+            if o3 != want3:
+                ctx.violation('start-tag-differs-inside-a-translation-block',
+                              'template %r bindings %r rendered %r; inside a translation block %r, expected %r' % (src, B, o, o3, want3),
+                              {'kind': 'attrs', 'src': src, 'cfg': cfg, 'B': repr(B)})
+                return
         if twin is not None and not any(B.get(v) == 'DEFAULT-MARKER' for n, v in entries if n):
             try:
                 o2 = twin(**real_bindings(B))
